@@ -208,17 +208,66 @@ impl CoeServiceRequest for SdoSegmented {
 }
 
 // ---- the SubDevice seen from Coe ----
-pub struct MainDevice { pub _p: u8 }
+pub struct LabeledTimeout { pub _p: u8 }
+pub struct Timeouts { pub _p: u8 }
+impl Timeouts {
+    #[verifier::external_body]
+    pub fn mailbox_echo(&self) -> (r: LabeledTimeout) { unimplemented!() }
+    #[verifier::external_body]
+    pub fn mailbox_response(&self) -> (r: LabeledTimeout) { unimplemented!() }
+    /// the pause between two polls (src/timer_factory.rs)
+    #[verifier::external_body]
+    pub async fn loop_tick(&self) { unimplemented!() }
+}
+//@include prelude/timeouts.rs
+pub struct MainDevice { pub timeouts: Timeouts }
 pub struct MailboxConfig { pub read: Option<Mailbox>, pub write: Option<Mailbox>, pub complete_access: bool }
 pub struct SubDeviceConfig { pub mailbox: MailboxConfig }
 pub struct SubDeviceRef<'a> { pub maindevice: &'a MainDevice, pub config: SubDeviceConfig }
 
 /// "`data` was sent (FPWR through WrappedWrite::send, which does not look at the working counter) to `len` bytes at `address` of this SubDevice"
 pub uninterp spec fn mbx_written(address: u16, len: u16, data: Seq<u8>) -> bool;
-/// "`reply` is what was read from the SubDevice's response mailbox `m` once it reported full"
-pub uninterp spec fn mbx_reply(m: Mailbox, reply: Seq<u8>) -> bool;
-/// "this error was reported by the exchange itself (timeout, working counter, no mailbox) and not by the triage of a reply"
-pub uninterp spec fn exchange_err(e: Error) -> bool;
+/// "`data` is what a checked FPRD of `len` bytes at `address` of this SubDevice returned"
+pub uninterp spec fn slice_read(address: u16, len: u16, data: Seq<u8>) -> bool;
+/// "`reply` is what was read from the SubDevice's response mailbox `m`"
+pub open spec fn mbx_reply(m: Mailbox, reply: Seq<u8>) -> bool { slice_read(m.address, m.len, reply) }
+/// "this error came out of a datagram exchange (PDU timeout, working counter, decode)"
+pub uninterp spec fn net_err(e: Error) -> bool;
+/// "this error was reported by the exchange itself (network, timeout scope, no mailbox) and not by the triage of a reply"
+pub open spec fn exchange_err(e: Error) -> bool {
+    net_err(e) || (exists|t: LabeledTimeout| e == #[trigger] timeout_error(t))
+        || e == Error::Mailbox(MailboxError::NoReadMailbox) || e == Error::Mailbox(MailboxError::NoWriteMailbox)
+}
+
+/// the sync manager status byte as far as it is looked at here (src/sync_manager_channel.rs; layout: C19)
+pub struct Status { pub mailbox_full: bool }
+pub struct WrappedRead { pub address: u16 }
+impl WrappedRead {
+    /// real bodies: src/command/reads.rs (unit `wrapped`)
+    #[verifier::external_body]
+    pub fn ignore_wkc(self) -> (r: Self) ensures r.address == self.address { unimplemented!() }
+    /// `receive::<Status>`: the device may report ANY status
+    #[verifier::external_body]
+    pub async fn receive_status(self, maindevice: &MainDevice) -> (r: Result<Status, Error>)
+        ensures r is Err ==> net_err(r->Err_0)
+    { unimplemented!() }
+    /// ANY bytes
+    #[verifier::external_body]
+    pub async fn receive_slice(self, maindevice: &MainDevice, len: u16) -> (r: Result<ReceivedPdu, Error>)
+        ensures
+            r is Ok ==> slice_read(self.address, len, (r->Ok_0).data()),
+            r is Err ==> net_err(r->Err_0),
+    { unimplemented!() }
+}
+pub struct RegisterAddress { pub _p: u8 }
+impl RegisterAddress {
+    /// real body: src/register.rs - `unreachable!()` for an index >= 16 (mailbox sync managers come from a list of at most 8)
+    #[verifier::external_body]
+    pub fn sync_manager_status(index: u8) -> (r: u16)
+        requires index < 16
+        ensures r == 0x0800 + 8 * index + 5
+    { unimplemented!() }
+}
 
 pub struct WrappedWrite { pub address: u16, pub len: Option<u16> }
 impl WrappedWrite {
@@ -231,13 +280,17 @@ impl WrappedWrite {
     pub async fn send<D: EtherCrabWireWrite>(self, maindevice: &MainDevice, data: D) -> (r: Result<(), Error>)
         ensures
             r is Ok ==> self.len is Some && mbx_written(self.address, self.len->Some_0, data.packed()),
-            r is Err ==> exchange_err(r->Err_0),
+            r is Err ==> net_err(r->Err_0),
     { unimplemented!() }
 }
 impl<'a> SubDeviceRef<'a> {
     #[verifier::external_body]
     pub fn write(&self, register: u16) -> (r: WrappedWrite)
         ensures r.address == register, r.len is None
+    { unimplemented!() }
+    #[verifier::external_body]
+    pub fn read(&self, register: u16) -> (r: WrappedRead)
+        ensures r.address == register
     { unimplemented!() }
     #[verifier::external_body]
     pub fn configured_address(&self) -> (r: u16) { unimplemented!() }
@@ -277,22 +330,46 @@ pub open spec fn view_of<R>(r: Result<(R, ReceivedPdu), Error>) -> Result<(R, Se
 
 pub struct Coe<'a> { pub subdevice: &'a SubDeviceRef<'a> }
 impl<'a> Coe<'a> {
-    /// real body: src/mailbox/coe/mod.rs (status polling under a timeout; not extracted - `async {..}.timeout(..)` blocks)
-    #[verifier::external_body]
-    pub async fn wait_for_mailboxes(&self) -> (r: Result<(Mailbox, Mailbox), Error>)
-        ensures
-            r is Ok ==> self.subdevice.config.mailbox.read == Some((r->Ok_0).0) && self.subdevice.config.mailbox.write == Some((r->Ok_0).1),
-            r is Err ==> exchange_err(r->Err_0),
-    { unimplemented!() }
-    /// the device's response mailbox: ANY bytes
-    #[verifier::external_body]
-    pub async fn wait_for_mailbox_response(&self, read_mailbox: &Mailbox) -> (r: Result<ReceivedPdu, Error>)
-        ensures
-            r is Ok ==> mbx_reply(*read_mailbox, (r->Ok_0).data()),
-            r is Err ==> exchange_err(r->Err_0),
-    { unimplemented!() }
+    /// the mailboxes are well-formed: their sync manager index names one of the 16 sync manager register blocks
+    /// (configure_mailboxes takes it from the position in a list of at most 8)
+    pub open spec fn wf(&self) -> bool {
+        &&& (self.subdevice.config.mailbox.read is Some ==> self.subdevice.config.mailbox.read->Some_0.sync_manager < 16)
+        &&& (self.subdevice.config.mailbox.write is Some ==> self.subdevice.config.mailbox.write->Some_0.sync_manager < 16)
+    }
+
+/*@fn file=src/mailbox/coe/mod.rs impl="impl<'maindevice, S> Coe<'maindevice, S>" name=wait_for_mailboxes subst=".receive::<crate::sync_manager_channel::Status>(=>.receive_status(" timeouts=1 props=C15,C16 attr="#[verifier::loop_isolation(false)] #[verifier::allow_complex_invariants]" __brk0="Result<(), Error>"
+    requires self.wf()
+    ensures
+        // Ok => the pair is (read mailbox, write mailbox) as configured - the order mailbox_write_read relies on
+        r is Ok ==> self.subdevice.config.mailbox.read == Some((r->Ok_0).0) && self.subdevice.config.mailbox.write == Some((r->Ok_0).1),
+        r is Err ==> exchange_err(r->Err_0),
+    // the stale-mailbox drain runs at most 10 times; the wait for the write mailbox runs under the mailbox_echo timeout
+@loop 0
+    invariant
+        !__dl.active,
+@loop 1
+    invariant
+        __dl.active,
+    decreases __dl.left@
+@closure 0 "|_e: &Error|"
+@*/
+
+/*@fn file=src/mailbox/coe/mod.rs impl="impl<'maindevice, S> Coe<'maindevice, S>" name=wait_for_mailbox_response subst=".receive::<crate::sync_manager_channel::Status>(=>.receive_status(" timeouts=1 props=C15,C16 attr="#[verifier::loop_isolation(false)] #[verifier::allow_complex_invariants]" __brk0="Result<(), Error>"
+    requires read_mailbox.sync_manager < 16
+    ensures
+        // the reply handed to the triage is what a checked read of exactly this mailbox (address, length) returned, after
+        // the mailbox reported full; waiting for that runs under the mailbox_response timeout
+        r is Ok ==> mbx_reply(*read_mailbox, (r->Ok_0).data()),
+        r is Err ==> exchange_err(r->Err_0),
+@loop 0
+    invariant
+        __dl.active,
+    decreases __dl.left@
+@closure 0 "|_e: &Error|"
+@*/
 
 /*@fn file=src/mailbox/coe/mod.rs impl="impl<'maindevice, S> Coe<'maindevice, S>" name=mailbox_write_read subst="&'maindevice self=>&self@@ReceivedPdu<'maindevice>=>ReceivedPdu@@R: CoeServiceRequest + Debug=>R: CoeServiceRequest" props=C15,C16
+    requires self.wf()
     ensures
         (r is Err && exchange_err(r->Err_0)) || exists|reply: Seq<u8>|
             self.subdevice.config.mailbox.read is Some && self.subdevice.config.mailbox.write is Some
